@@ -165,7 +165,7 @@ pub fn load_table(workload_dir: &str, table: &str, key_seed: u64, timeout: Durat
         if let Outcome::Died(m) = &r.outcome {
             // somebody already paid for finding out that this module never finishes
             if m.contains("did not finish within") {
-                refs.timeout = refs.timeout.min(Duration::from_secs(15));
+                refs.timeout = refs.timeout.min(Duration::from_secs(30));
             }
         }
         let ndiags = if let Outcome::Returned(o) = &r.outcome { o.diags.len() as u32 } else { 0 };
